@@ -369,6 +369,15 @@ def main(argv=None):
                 raise HarnessError(f"oracle self-test failed: {problems}")
         with quiet():
             res, rule, info = mod.run(args.tier)
+            # seconds-long replay tier: minimal failing cases saved from earlier findings, run through the plain oracle
+            import glob
+            for path in sorted(glob.glob(os.path.join(VERIF_DIR, "regress", f"{prop_id}-*.json"))):
+                with open(path) as f:
+                    body = json.load(f)
+                msgs = mod.replay(body["case"])
+                res.case(sample=None, nontrivial=True, key=["regress", os.path.basename(path)], classes=["regression_replay"])
+                if msgs:
+                    res.violation(body["case"], f"saved regression case {os.path.basename(path)} fails again: " + "; ".join(map(str, msgs[:3])))
         return finish(prop_id, args.tier, res, rule, time.time() - t0, **info)
     except HarnessError as e:
         print(f"HARNESS-ERROR {prop_id}: {e}", file=sys.stderr)
